@@ -13,7 +13,7 @@ def run(ctx):
     ctx.audit("Slock.Properties.C05", THEOREMS)
     if ctx.tier == "thorough":
         ctx.leanchecker("Slock.Properties.C05")
-    engine_common.run_engine(ctx, ["C05:"], n_quick=600, n_thorough=40000)
+    engine_common.run_engine(ctx, ["C05:"], n_quick=3000, n_thorough=60000)
     ctx.assumptions.append("server time = the virtual clock; one sweep per elapsed second (what updateCurrentTime/checkTimeOut do); millisecond waits are not modelled")
     ctx.cov["rule"] = ("seeded sequences with waits of 1..65535 s / minutes, bursts of up to 17 ticks, grants and cancels interleaved; monitor: TIMEOUT replies in [T, T+2] s of "
                        "virtual time, no queued request 2 s past its deadline; distinct_nontrivial = distinct sequences containing at least one grant")
